@@ -439,6 +439,48 @@ def class_level_mutables(model: Model) -> List[Tuple[ClassInfo, str, ast.expr]]:
     return out
 
 
+def class_level_mutable_writes(model: Model) -> List[Tuple[ClassInfo, str, "WriteSite"]]:
+    """Write sites whose receiver is a class-level mutable container reached through an instance (`self.X`), the class
+    (`cls.X`, `C.X`, `type(self).X`): one object shared by every instance, whatever the instance's own lifetime.  An
+    attribute that the class's constructor rebinds on the instance (`self.X = ...`) is not shared."""
+    out: List[Tuple[ClassInfo, str, WriteSite]] = []
+    shared = {}
+    for ci, name, _e in class_level_mutables(model):
+        rebound = False
+        for c2 in [ci] + list(model.subclasses(ci)):
+            init = c2.methods.get("__init__")
+            if init is None:
+                continue
+            for n in walk_own(init.node):
+                tg = n.targets if isinstance(n, ast.Assign) else [n.target] if isinstance(n, ast.AnnAssign) and n.value is not None else []
+                for t in tg:
+                    if isinstance(t, ast.Attribute) and t.attr == name and isinstance(t.value, ast.Name) and t.value.id == "self":
+                        rebound = True
+        if not rebound:
+            shared[(ci.qualname, name)] = ci
+    if not shared:
+        return out
+    for w in census(model, exclude_modules=()):
+        if w.fn.cls is None:
+            continue
+        try:
+            e = ast.parse(w.receiver, mode="eval").body
+        except SyntaxError:
+            continue
+        # self.X / cls.X / type(self).X / ClassName.X  (possibly followed by subscripts)
+        while isinstance(e, ast.Subscript):
+            e = e.value
+        if not isinstance(e, ast.Attribute):
+            continue
+        base = ast.unparse(e.value)
+        for c2 in w.fn.cls.mro():
+            key = (c2.qualname, e.attr)
+            if key in shared and (base in ("self", "cls", "type(self)", "self.__class__") or base == c2.name):
+                if w.kind in ("mutator", "item-store", "delete", "inplace", "aug"):
+                    out.append((c2, e.attr, w))
+    return out
+
+
 CACHE_DECORATORS = ("lru_cache", "cache", "memoize", "cached")
 
 
